@@ -76,3 +76,14 @@ package contracts
 //@   modifies lastWaitLimiter, lastLimiterErr
 //@   ghostset lastWaitLimiter := lim
 //@   ghostset lastLimiterErr := result
+
+//@ package encoding/json
+
+// Ghost view of what is written to an HTTP response: the value most recently handed to an
+// Encoder and the number of Encode calls. Assumed: Encode serialises exactly that value.
+//@ ghost nEncoded int
+//@ ghost lastEncoded interface{}
+//@ trusted func (*Encoder).Encode
+//@   modifies nEncoded, lastEncoded
+//@   ghostset nEncoded := nEncoded + 1
+//@   ghostset lastEncoded := v
